@@ -103,8 +103,15 @@ Alg1Ok(ev) ==
                             /\ ev.lim[i][3] = NearestDef(I, x, Kk)      \* getAcceptedLimit
   /\ \A i \in DOMAIN ev.inc : LET a == ev.inc[i][1]  b == ev.inc[i][2] IN
         a <= b => ev.inc[i][3] = B01(IncludesDef(I, a, b, Kk))
+  \* interval < value, > value, <= value, >= value: every accepted real is
+  /\ \A i \in DOMAIN ev.cmp : LET v == ev.cmp[i][1]  A == AcceptSet(I, Kk) IN
+        (~EmptyDef(I, Kk) /\ v \in CmpCodes(Kk)) =>
+            /\ ev.cmp[i][2] = B01(\A x \in A : x < v) /\ ev.cmp[i][3] = B01(\A x \in A : x > v)
+            /\ ev.cmp[i][4] = B01(\A x \in A : x <= v) /\ ev.cmp[i][5] = B01(\A x \in A : x >= v)
 \* two intervals: the intersection (operator& and operator&=) accepts exactly what both accept, whatever its
 \* representation; emptiness of the result is reported iff nothing is accepted; the operands are not modified by &
+\* inclusion is asserted where counting the infinite values (accepted by an included infinite bound) or not gives the same verdict
+SubAgree(I, J, Kk) == (AcceptSet(I, Kk) \subseteq AcceptSet(J, Kk)) <=> (AcceptSetX(I, Kk) \subseteq AcceptSetX(J, Kk))
 Alg2Ok(ev) ==
   LET I == ev.I  J == ev.J  Kk == ev.K  both == AcceptSet(I, Kk) \cap AcceptSet(J, Kk) IN
   /\ SeqSet(ev.andacc) = both
@@ -113,6 +120,10 @@ Alg2Ok(ev) ==
   /\ ev.iandemp = B01(both = {})
   /\ ev.after = <<I, J>>
   /\ ev.jafter = J
+  \* operator== / != : same bounds and flags; operator<= : inclusion of the accepted reals (asserted for a non-empty left side)
+  /\ ev.eq = B01(I = J) /\ ev.ne = B01(I # J)
+  /\ (~EmptyDef(I, Kk) /\ SubAgree(I, J, Kk)) => ev.le[1] = B01(AcceptSet(I, Kk) \subseteq AcceptSet(J, Kk))
+  /\ (~EmptyDef(J, Kk) /\ SubAgree(J, I, Kk)) => ev.le[2] = B01(AcceptSet(J, Kk) \subseteq AcceptSet(I, Kk))
 \* a description in the documented bracket syntax parses to the interval it denotes
 DescOk(ev) == ev.r = "ok" /\ ev.got = Denote(ev.lb, ev.lo, ev.hi, ev.rb)
 
